@@ -179,7 +179,9 @@ func (pc *parentController) syncRevisions(parent *unstructured.Unstructured, obs
 	}
 
 	// Manipulate revisions to proceed with any ongoing rollout, if possible.
-	if err := pc.syncRollingUpdate(parentRevisions, observedChildren); err != nil {
+	// ControllerRevisions and hook responses name children relative to the parent,
+	// so look observed children up by the same relative names.
+	if err := pc.syncRollingUpdate(parentRevisions, observedChildren.Convert(parent)); err != nil {
 		return nil, err
 	}
 
